@@ -125,6 +125,7 @@ impl<T> Exec<T> {
                         None => s.push('t'),
                     }
                 }
+                WireEvent::BlocksForever { .. } => s.push('B'),
             }
         }
         s
